@@ -6,6 +6,7 @@ From Coq Require Import List NArith ZArith Bool Lia ZifyN ZifyNat ZifyBool.
 From Coq.Strings Require Import Byte.
 From Mcap Require Import Bytes BytesFacts GoSem Ros1Msg.
 Import ListNotations.
+Open Scope nat_scope.
 Open Scope go_scope.
 
 Definition fine {A} (x : outcome A) : Prop :=
@@ -144,9 +145,9 @@ Section Go.
 
   Lemma dep_get_In k d : dep_get k deps = Some d -> In k (map fst deps).
   Proof.
-    induction deps as [|[k' v] r IH]; simpl; [discriminate|].
+    revert d. induction deps as [|[k' v] r IH]; intros d; simpl; [discriminate|].
     destruct (dep_get k r) as [x|].
-    - intros _. right. apply IH. reflexivity.
+    - intros _. right. apply (IH x). reflexivity.
     - destruct (bytes_eqb k k') eqn:E; [|discriminate]. apply bytes_eqb_eq in E. subst. auto.
   Qed.
 
@@ -219,3 +220,1103 @@ Theorem parse_msgdef_fine pkg data : fine (parse_msgdef pkg data).
 Proof.
   unfold parse_msgdef. apply resolve_fine; [constructor | intros x [] | simpl; lia].
 Qed.
+
+(* ------------------------------------------------------------------------------------------ *)
+(* helper fuels: TrimSpace                                                                     *)
+
+Lemma starts_with_split p : forall s, starts_with p s = true -> s = p ++ skipn (length p) s.
+Proof.
+  induction p as [|a p IH]; intros [|b s]; simpl; try discriminate; auto.
+  rewrite andb_true_iff, byte_eqb_eq. intros [-> H]. f_equal. auto.
+Qed.
+
+Lemma starts_with_app p s : starts_with p (p ++ s) = true.
+Proof. induction p as [|a p IH]; simpl; auto. rewrite IH, andb_true_r. apply byte_eqb_eq. reflexivity. Qed.
+
+Lemma starts_with_mono p : forall s t, starts_with p s = true -> starts_with p (s ++ t) = true.
+Proof.
+  induction p as [|a p IH]; intros [|b s] t; simpl; try discriminate; auto.
+  rewrite !andb_true_iff. intros [H1 H2]. auto.
+Qed.
+
+Lemma rev_concat {A} (l : list (list A)) : rev (concat l) = concat (map (@rev A) (rev l)).
+Proof.
+  induction l as [|x l IH]; simpl; auto.
+  rewrite rev_app_distr, IH, map_app, concat_app. simpl. rewrite app_nil_r. reflexivity.
+Qed.
+
+Section Trim.
+  Variable sp : list bytes.
+  Hypothesis sp_nonempty : forall p, In p sp -> p <> [].
+
+  Fixpoint trim_gen (fuel : nat) (s : bytes) : bytes :=
+    match fuel with
+    | O => s
+    | S f => match strip_one sp s with Some s' => trim_gen f s' | None => s end
+    end.
+
+  Lemma strip_one_Some s s' : strip_one sp s = Some s' -> exists p, In p sp /\ s = p ++ s'.
+  Proof.
+    clear sp_nonempty. induction sp as [|p r IH]; simpl; [discriminate|].
+    destruct (starts_with p s) eqn:E.
+    - intros H. injection H as <-. exists p. split; auto. apply starts_with_split. exact E.
+    - intros H. destruct (IH H) as (q & Hq & Hs). exists q. auto.
+  Qed.
+
+  Lemma strip_one_None s : strip_one sp s = None <-> forall p, In p sp -> starts_with p s = false.
+  Proof.
+    clear sp_nonempty. induction sp as [|p r IH]; simpl; [split; [intros _ p []|auto]|].
+    destruct (starts_with p s) eqn:E.
+    - split; [discriminate|]. intros H. rewrite (H p) in E; auto; discriminate.
+    - rewrite IH. split; [intros H q [<-|Hq]; auto | intros H q Hq; auto].
+  Qed.
+
+  Lemma strip_one_shorter s s' : strip_one sp s = Some s' -> length s' < length s.
+  Proof.
+    intros H. destruct (strip_one_Some _ _ H) as (p & Hp & ->).
+    rewrite app_length. specialize (sp_nonempty p Hp). destruct p; [congruence|simpl; lia].
+  Qed.
+
+  (* the fuel [length s] suffices: nothing strippable is left *)
+  Lemma trim_gen_done fuel : forall s, length s <= fuel -> strip_one sp (trim_gen fuel s) = None.
+  Proof.
+    induction fuel as [|f IH]; intros s Hl; simpl.
+    - destruct s; [|simpl in Hl; lia]. destruct (strip_one sp []) eqn:E; auto.
+      apply strip_one_shorter in E. simpl in E. lia.
+    - destruct (strip_one sp s) as [s'|] eqn:E; auto.
+      apply IH. apply strip_one_shorter in E. lia.
+  Qed.
+
+  Lemma trim_gen_fuel : forall f1 f2 s, length s <= f1 -> length s <= f2 -> trim_gen f1 s = trim_gen f2 s.
+  Proof.
+    induction f1 as [|f1 IH]; intros f2 s H1 H2.
+    - destruct s; [|simpl in H1; lia]. destruct f2; simpl; auto.
+      destruct (strip_one sp []) eqn:E; auto. apply strip_one_shorter in E. simpl in E. lia.
+    - destruct f2 as [|f2].
+      + destruct s; [|simpl in H2; lia]. simpl.
+        destruct (strip_one sp []) eqn:E; auto. apply strip_one_shorter in E. simpl in E. lia.
+      + simpl. destruct (strip_one sp s) as [s'|] eqn:E; auto.
+        apply strip_one_shorter in E. apply IH; lia.
+  Qed.
+
+  (* what is removed is a sequence of members of [sp] *)
+  Lemma trim_gen_prefix fuel : forall s,
+    exists ps, Forall (fun p => In p sp) ps /\ s = concat ps ++ trim_gen fuel s.
+  Proof.
+    induction fuel as [|f IH]; intros s; simpl; [exists []; auto|].
+    destruct (strip_one sp s) as [s'|] eqn:E; [|exists []; auto].
+    destruct (strip_one_Some _ _ E) as (p & Hp & ->). destruct (IH s') as (ps & Hps & Hs).
+    exists (p :: ps). split; [constructor; auto|]. simpl. rewrite <- app_assoc, <- Hs. reflexivity.
+  Qed.
+End Trim.
+
+Lemma trim_left_gen fuel s : trim_left fuel s = trim_gen spaces fuel s.
+Proof. reflexivity. Qed.
+
+Lemma trim_space_gen s :
+  trim_space s =
+  rev (trim_gen (map (@rev byte) spaces) (length (rev (trim_left (length s) s))) (rev (trim_left (length s) s))).
+Proof. reflexivity. Qed.
+
+Lemma spaces_nonempty p : In p spaces -> p <> [].
+Proof. intros H. repeat (destruct H as [<-|H]; [discriminate|]). destruct H. Qed.
+
+Lemma rspaces_nonempty p : In p (map (@rev byte) spaces) -> p <> [].
+Proof. intros H. repeat (destruct H as [<-|H]; [discriminate|]). destruct H. Qed.
+
+(* trim_left with fuel [length s] leaves no leading white space, and more fuel changes nothing *)
+Lemma trim_left_done s : strip_one spaces (trim_left (length s) s) = None.
+Proof. apply (trim_gen_done spaces spaces_nonempty). lia. Qed.
+
+Lemma trim_left_fuel s k : trim_left (length s + k) s = trim_left (length s) s.
+Proof. apply (trim_gen_fuel spaces spaces_nonempty); lia. Qed.
+
+(* strings.TrimSpace: s = (white space)* ++ trim_space s ++ (white space)*, and the result neither
+   starts nor ends with a white-space sequence *)
+Theorem trim_space_spec s :
+  strip_one spaces (trim_space s) = None /\
+  strip_one (map (@rev byte) spaces) (rev (trim_space s)) = None /\
+  exists la lb, Forall (fun p => In p spaces) la /\ Forall (fun p => In p spaces) lb /\
+                s = concat la ++ trim_space s ++ concat lb.
+Proof.
+  rewrite trim_space_gen. set (l := trim_left (length s) s). set (r := rev l).
+  set (t := trim_gen (map (@rev byte) spaces) (length r) r).
+  assert (Ht : strip_one (map (@rev byte) spaces) t = None)
+    by (apply (trim_gen_done _ rspaces_nonempty); lia).
+  destruct (trim_gen_prefix (map (@rev byte) spaces) (length r) r) as (ps & Hps & Hr). fold t in Hr.
+  assert (Hl : l = rev t ++ rev (concat ps)).
+  { rewrite <- rev_app_distr, <- Hr. unfold r. rewrite rev_involutive. reflexivity. }
+  split; [|split].
+  - apply strip_one_None. intros p Hp. destruct (starts_with p (rev t)) eqn:E; auto.
+    pose proof (trim_left_done s) as Hd. fold l in Hd. rewrite Hl in Hd.
+    rewrite strip_one_None in Hd. specialize (Hd p Hp).
+    rewrite (starts_with_mono _ _ _ E) in Hd. discriminate.
+  - rewrite rev_involutive. exact Ht.
+  - destruct (trim_gen_prefix spaces (length s) s) as (la & Hla & Hs).
+    rewrite <- trim_left_gen in Hs. fold l in Hs.
+    exists la, (map (@rev byte) (rev ps)). split; auto. split.
+    + apply Forall_forall. intros x Hx. apply in_map_iff in Hx. destruct Hx as (y & <- & Hy).
+      apply in_rev in Hy. rewrite Forall_forall in Hps. specialize (Hps y Hy).
+      apply in_map_iff in Hps. destruct Hps as (z & <- & Hz). rewrite rev_involutive. exact Hz.
+    + rewrite Hl, rev_concat in Hs. exact Hs.
+Qed.
+
+(* a string that neither starts nor ends with white space is left alone *)
+Lemma trim_space_id s :
+  strip_one spaces s = None -> strip_one (map (@rev byte) spaces) (rev s) = None -> trim_space s = s.
+Proof.
+  intros H1 H2. rewrite trim_space_gen.
+  assert (E : trim_left (length s) s = s) by (destruct s; simpl; auto; simpl in H1; rewrite H1; auto).
+  rewrite E. destruct (rev s) eqn:Er; simpl.
+  - rewrite <- (rev_involutive s), Er. reflexivity.
+  - simpl in H2. rewrite H2. rewrite <- Er. apply rev_involutive.
+Qed.
+
+(* ------------------------------------------------------------------------------------------ *)
+(* helper fuels: the regular expression                                                        *)
+
+Lemma span_spec p : forall s a c, span p s = (a, c) ->
+  s = a ++ c /\ forallb p a = true /\ match c with [] => True | b :: _ => p b = false end.
+Proof.
+  induction s as [|b s IH]; intros a c; simpl.
+  - intros H. injection H as <- <-. auto.
+  - destruct (p b) eqn:E.
+    + destruct (span p s) as [a' c'] eqn:Es. intros H. injection H as <- <-.
+      destruct (IH _ _ eq_refl) as (-> & Hf & Hc). simpl. rewrite E. auto.
+    + intros H. injection H as <- <-. simpl. auto.
+Qed.
+
+Lemma span_app p a : forall r, forallb p a = true -> match r with [] => True | b :: _ => p b = false end ->
+  span p (a ++ r) = (a, r).
+Proof.
+  induction a as [|x a IH]; intros r Ha Hr; simpl.
+  - destruct r; auto. simpl. rewrite Hr. reflexivity.
+  - simpl in Ha. apply andb_true_iff in Ha. destruct Ha as [Hx Ha]. rewrite Hx, IH; auto.
+Qed.
+
+Lemma field_match_S f s :
+  field_match (S f) s =
+  match snd (span is_sp_tab s) with
+  | [] => None
+  | s1 =>
+    let tok := fst (span (fun b => negb (is_sp_tab b)) s1) in
+    let s2 := snd (span (fun b => negb (is_sp_tab b)) s1) in
+    let ws := fst (span is_sp_tab s2) in
+    match snd (span is_sp_tab s2) with
+    | c :: r =>
+      if existsb (fun b => is_byte b 32) ws && is_alpha c
+      then Some (tok, fst (span is_alnum_us (c :: r)))
+      else field_match f s2
+    | [] => None
+    end
+  end.
+Proof.
+  cbn [field_match]. destruct (span is_sp_tab s) as [w s1]. cbn [snd]. destruct s1 as [|c1 r1]; auto.
+  destruct (span (fun b => negb (is_sp_tab b)) (c1 :: r1)) as [tok s2]. cbn [fst snd].
+  destruct (span is_sp_tab s2) as [ws s3]. destruct s3; reflexivity.
+Qed.
+
+(* the fuel [S (length s)] suffices: more fuel gives the same answer *)
+Lemma field_match_fuel : forall f1 f2 s, length s < f1 -> length s < f2 -> field_match f1 s = field_match f2 s.
+Proof.
+  induction f1 as [|f1 IH]; intros f2 s H1 H2; [lia|]. destruct f2 as [|f2]; [lia|].
+  rewrite !field_match_S.
+  destruct (span is_sp_tab s) as [w s1] eqn:E1. cbn [snd]. destruct s1 as [|c1 r1]; auto.
+  destruct (span (fun b => negb (is_sp_tab b)) (c1 :: r1)) as [tok s2] eqn:E2. cbn [fst snd].
+  destruct (snd (span is_sp_tab s2)) as [|c r]; auto.
+  destruct (_ && _); auto.
+  apply span_spec in E1. destruct E1 as (-> & _ & Hc1).
+  assert (Hlen : length s2 < length (c1 :: r1)).
+  { simpl in E2. rewrite Hc1 in E2. simpl in E2. destruct (span _ r1) as [a c'] eqn:E3.
+    injection E2 as <- <-. apply span_spec in E3. destruct E3 as (-> & _). simpl. rewrite app_length. lia. }
+  rewrite app_length in H1, H2. apply IH; lia.
+Qed.
+
+Lemma field_match_enough s k : field_match (S (length s) + k) s = field_match (S (length s)) s.
+Proof. apply field_match_fuel; lia. Qed.
+
+(* ------------------------------------------------------------------------------------------ *)
+(* cycles are errors                                                                           *)
+
+Lemma go_spec_Ok_inv rec pkg deps vis lines : forall acc r,
+  go_spec rec pkg deps vis lines acc = Ok r ->
+  forall raw ftype fname, In raw lines -> classify_line raw = LField ftype fname ->
+  exists x, resolve_type rec pkg deps vis (elem_type ftype (parse_array_type ftype)) = Ok x.
+Proof.
+  induction lines as [|l rest IH]; intros acc r H raw ftype fname Hin Hc; [destruct Hin|].
+  simpl in H. destruct Hin as [->|Hin].
+  - rewrite Hc in H. destruct (resolve_type _ _ _ _ _) as [x| | | |]; try discriminate. eauto.
+  - destruct (classify_line l) as [|ft fn|]; try discriminate; [eauto|].
+    destruct (resolve_type rec pkg deps vis (elem_type ft (parse_array_type ft))) as [x| | | |];
+      try discriminate. simpl in H. eauto.
+Qed.
+
+Lemma resolve_type_Ok_inv rec pkg deps vis ft x :
+  resolve_type rec pkg deps vis ft = Ok x -> mem_b ft primitives = false ->
+  exists fpkg key sub fs, lookup_dep pkg deps ft = Ok (fpkg, key, sub) /\ ~ In key vis /\
+                          rec fpkg (key :: vis) sub = Ok fs /\ x = (true, fs).
+Proof.
+  unfold resolve_type. intros H Hp. rewrite Hp in H.
+  destruct (lookup_dep pkg deps ft) as [[[fpkg key] sub]| | | |]; try discriminate. cbn [bind] in H.
+  destruct (mem_b key vis) eqn:Ev; [discriminate|]. apply mem_b_false in Ev.
+  destruct (rec fpkg (key :: vis) sub) as [fs| | | |] eqn:Er; try discriminate.
+  injection H as <-. exists fpkg, key, sub, fs. auto.
+Qed.
+
+(* [refs deps pkg def fpkg key sub]: the definition text [def], read with parent package [pkg],
+   has a field whose (element) type is a record that the lookup rules resolve to the table entry
+   [key] with text [sub] and parent package [fpkg] *)
+Definition refs (deps : list (bytes * bytes)) (pkg def fpkg key sub : bytes) : Prop :=
+  exists raw ftype fname,
+    In raw (split_byte 10 def) /\ classify_line raw = LField ftype fname /\
+    mem_b (elem_type ftype (parse_array_type ftype)) primitives = false /\
+    lookup_dep pkg deps (elem_type ftype (parse_array_type ftype)) = Ok (fpkg, key, sub).
+
+Lemma resolve_Ok_step fuel pkg deps vis def r fpkg key sub :
+  resolve fuel pkg deps vis def = Ok r -> refs deps pkg def fpkg key sub ->
+  ~ In key vis /\ exists fuel' r', resolve fuel' fpkg deps (key :: vis) sub = Ok r'.
+Proof.
+  intros H (raw & ftype & fname & Hin & Hc & Hp & Hl).
+  destruct fuel as [|fu]; [discriminate|]. rewrite resolve_S in H.
+  destruct (go_spec_Ok_inv _ _ _ _ _ _ _ H _ _ _ Hin Hc) as (x & Hx).
+  destruct (resolve_type_Ok_inv _ _ _ _ _ _ Hx Hp) as (fpkg' & key' & sub' & fs & Hl' & Hn & Hr & _).
+  rewrite Hl in Hl'. injection Hl' as <- <- <-. split; auto. exists fu, fs. exact Hr.
+Qed.
+
+(* chains of references; the keys met are listed most recent first *)
+Inductive ref_path (deps : list (bytes * bytes)) (pkg def : bytes) : list bytes -> bytes -> bytes -> Prop :=
+| rp_nil : ref_path deps pkg def [] pkg def
+| rp_cons ks pkg1 def1 pkg2 key def2 :
+    ref_path deps pkg def ks pkg1 def1 -> refs deps pkg1 def1 pkg2 key def2 ->
+    ref_path deps pkg def (key :: ks) pkg2 def2.
+
+Lemma resolve_Ok_path deps pkg def ks pkg' def' :
+  ref_path deps pkg def ks pkg' def' ->
+  forall fuel vis r, NoDup vis -> resolve fuel pkg deps vis def = Ok r ->
+  NoDup (ks ++ vis) /\ exists fuel' r', resolve fuel' pkg' deps (ks ++ vis) def' = Ok r'.
+Proof.
+  induction 1 as [|ks pkg1 def1 pkg2 key def2 Hp IH Hr]; intros fuel vis r Hnd Hok.
+  - simpl. eauto.
+  - destruct (IH _ _ _ Hnd Hok) as (Hnd' & fuel' & r' & Hok').
+    destruct (resolve_Ok_step _ _ _ _ _ _ _ _ _ Hok' Hr) as (Hn & Hex).
+    split; [simpl; constructor; auto | exact Hex].
+Qed.
+
+(* a chain of references that meets the same table entry twice makes the parse fail *)
+Theorem resolve_cycle_not_ok deps pkg def ks pkg' def' :
+  ref_path deps pkg def ks pkg' def' -> ~ NoDup ks ->
+  forall fuel r, resolve fuel pkg deps [] def <> Ok r.
+Proof.
+  intros Hp Hdup fuel r Hok.
+  destruct (resolve_Ok_path _ _ _ _ _ _ Hp _ _ _ (NoDup_nil _) Hok) as (Hnd & _).
+  rewrite app_nil_r in Hnd. auto.
+Qed.
+
+Definition msgdef_secs (data : bytes) : list bytes := split_sections (split_byte 10 data) [] [].
+Definition msgdef_top (data : bytes) : bytes := hd [] (msgdef_secs data).
+Definition msgdef_deps (data : bytes) : list (bytes * bytes) :=
+  map (fun sub => let ls := split_byte 10 sub in
+                  (strip_prefix s_msg_prefix (trim_space (hd [] ls)), join_nl (tl ls)))
+      (tl (msgdef_secs data)).
+
+Lemma parse_msgdef_unfold pkg data :
+  parse_msgdef pkg data = resolve (length (msgdef_deps data) + 3) pkg (msgdef_deps data) [] (msgdef_top data).
+Proof. reflexivity. Qed.
+
+Theorem parse_msgdef_cycle_err pkg data ks pkg' def' :
+  ref_path (msgdef_deps data) pkg (msgdef_top data) ks pkg' def' -> ~ NoDup ks ->
+  exists e, parse_msgdef pkg data = Err e.
+Proof.
+  intros Hp Hdup. pose proof (parse_msgdef_fine pkg data) as Hf.
+  pose proof (resolve_cycle_not_ok _ _ _ _ _ _ Hp Hdup (length (msgdef_deps data) + 3)) as Hn.
+  rewrite <- parse_msgdef_unfold in Hn.
+  destruct (parse_msgdef pkg data) as [r|e| | |]; simpl in Hf; try contradiction; [|eauto].
+  exfalso. apply (Hn r). reflexivity.
+Qed.
+
+(* ========================================================================================== *)
+(* part 2: abstract type graphs, their canonical rendering, and the expected field tree        *)
+
+Inductive aty :=
+| APrim (name : bytes)                    (* one of the ROS primitives *)
+| ARef (written : bytes) (target : bytes). (* a nested type as written, and the "MSG:" section it denotes *)
+
+(* af_arr: None: scalar; Some None: T[]; Some (Some ds): T[ds] with ds the decimal digits *)
+Record afield := { af_ty : aty; af_arr : option (option bytes); af_name : bytes }.
+Record agraph := { top : list afield; sections : list (bytes * list afield) }.
+
+Definition sep80 : bytes := repeat x3d 80.
+Definition type_text (t : aty) : bytes := match t with APrim n => n | ARef w _ => w end.
+Definition arr_suffix (a : option (option bytes)) : bytes :=
+  match a with None => [] | Some None => [x5b; x5d] | Some (Some ds) => x5b :: ds ++ [x5d] end.
+Definition arr_value (a : option bytes) : Z :=
+  match a with None => 0%Z | Some ds => match atoi ds with Some z => z | None => 0%Z end end.
+
+Definition render_line (f : afield) : bytes :=
+  type_text (af_ty f) ++ arr_suffix (af_arr f) ++ x20 :: af_name f.
+Definition sec_lines (s : bytes * list afield) : list bytes :=
+  sep80 :: (s_msg_prefix ++ fst s) :: map render_line (snd s).
+Definition graph_lines (g : agraph) : list bytes :=
+  map render_line (top g) ++ concat (map sec_lines (sections g)).
+Definition render_graph (g : agraph) : bytes := join_nl (graph_lines g).
+
+(* --- well-formedness --- *)
+Definition ascii_vis (b : byte) : bool := (33 <=? bN b)%N && (bN b <=? 126)%N.
+(* bytes allowed in a type name: visible ASCII except '#', '=', '[' and ']' *)
+Definition ty_byte (b : byte) : bool :=
+  ascii_vis b && negb (is_byte b 35) && negb (is_byte b 61) && negb (is_byte b 91) && negb (is_byte b 93).
+Definition is_nil {A} (l : list A) : bool := match l with [] => true | _ => false end.
+Definition type_text_ok (t : bytes) : bool := negb (is_nil t) && forallb ty_byte t.
+(* [a-zA-Z][a-zA-Z0-9_]* *)
+Definition ident_ok (s : bytes) : bool :=
+  match s with [] => false | c :: r => is_alpha c && forallb is_alnum_us r end.
+Definition sec_name_ok (n : bytes) : bool := negb (is_nil n) && forallb ascii_vis n.
+(* an explicit array length: a non-empty digit string that strconv.Atoi accepts (value < 2^63) *)
+Definition digits_ok (ds : bytes) : bool :=
+  negb (is_nil ds) && forallb is_digit ds && match atoi ds with Some _ => true | None => false end.
+Definition arr_ok (a : option (option bytes)) : bool :=
+  match a with Some (Some ds) => digits_ok ds | _ => true end.
+Definition field_static_ok (f : afield) : bool :=
+  ident_ok (af_name f) && arr_ok (af_arr f) && type_text_ok (type_text (af_ty f)).
+
+Fixpoint nodup_b (l : list bytes) : bool :=
+  match l with [] => true | x :: r => negb (mem_b x r) && nodup_b r end.
+
+Fixpoint sec_get (k : bytes) (secs : list (bytes * list afield)) : option (list afield) :=
+  match secs with
+  | [] => None
+  | (n, fs) :: r => if bytes_eqb k n then Some fs else sec_get k r
+  end.
+
+(* the three lookup rules, in the order the parser applies them, relative to the parent package *)
+Definition ref_target (pkg : bytes) (names : list bytes) (w : bytes) : option bytes :=
+  if mem_b w names then Some w                                         (* exact *)
+  else if bytes_eqb w s_header then
+    (if mem_b s_std_header names then Some s_std_header else None)     (* Header special case *)
+  else if negb (contains_byte 47 w) then
+    (if mem_b (pkg ++ x2f :: w) names then Some (pkg ++ x2f :: w) else None)  (* package relative *)
+  else None.
+
+Definition opt_bytes_eqb (a : option bytes) (b : bytes) : bool :=
+  match a with Some x => bytes_eqb x b | None => false end.
+
+(* traversal from the top-level fields: every field is statically fine, primitives are primitives,
+   references obey the lookup rules w.r.t. the current parent package, and no section is entered
+   again while it is being expanded (acyclicity).  fuel: one more than the number of sections *)
+Fixpoint wf_fields (secs : list (bytes * list afield)) (fuel : nat) (pkg : bytes) (vis : list bytes)
+         (fs : list afield) : bool :=
+  match fuel with
+  | O => false
+  | S f =>
+    forallb (fun fld =>
+      field_static_ok fld &&
+      match af_ty fld with
+      | APrim n => mem_b n primitives
+      | ARef w t =>
+        negb (mem_b w primitives) && opt_bytes_eqb (ref_target pkg (map fst secs) w) t &&
+        negb (mem_b t vis) &&
+        match sec_get t secs with
+        | Some sfs => wf_fields secs f (ctx_pkg pkg w) (t :: vis) sfs
+        | None => false
+        end
+      end) fs
+  end.
+
+Definition wf_graph (pkg : bytes) (g : agraph) : bool :=
+  forallb field_static_ok (top g) &&
+  forallb (fun s => sec_name_ok (fst s) && forallb field_static_ok (snd s)) (sections g) &&
+  nodup_b (map fst (sections g)) &&
+  wf_fields (sections g) (S (length (sections g))) pkg [] (top g).
+
+(* --- the expected tree --- *)
+Definition tree_field (f : afield) (is_rec : bool) (sub : list field) : field :=
+  let text := type_text (af_ty f) in
+  match af_arr f with
+  | None => Fld (af_name f) (Ty text false 0%Z is_rec None sub)
+  | Some a => Fld (af_name f) (Ty (text ++ arr_suffix (Some a)) true (arr_value a) false
+                                  (Some (Ty text false 0%Z is_rec None sub)) [])
+  end.
+
+Fixpoint tree_fields (secs : list (bytes * list afield)) (fuel : nat) (fs : list afield) : list field :=
+  match fuel with
+  | O => []
+  | S f =>
+    map (fun fld =>
+      match af_ty fld with
+      | APrim _ => tree_field fld false []
+      | ARef _ t => tree_field fld true
+                      (match sec_get t secs with Some sfs => tree_fields secs f sfs | None => [] end)
+      end) fs
+  end.
+
+Definition tree_of (g : agraph) : list field := tree_fields (sections g) (S (length (sections g))) (top g).
+
+(* ------------------------------------------------------------------------------------------ *)
+(* byte classes                                                                                *)
+
+Lemma vis_lead b r : ascii_vis b = true -> strip_one spaces (b :: r) = None.
+Proof. intros H. destruct b; try (vm_compute in H; discriminate H); reflexivity. Qed.
+
+Lemma vis_trail b r : ascii_vis b = true -> strip_one (map (@rev byte) spaces) (b :: r) = None.
+Proof. intros H. destruct b; try (vm_compute in H; discriminate H); reflexivity. Qed.
+
+Lemma vis_props b : ascii_vis b = true ->
+  is_sp_tab b = false /\ is_byte b 10 = false /\ is_byte b 32 = false.
+Proof. intros H. destruct b; try (vm_compute in H; discriminate H); repeat split; reflexivity. Qed.
+
+Lemma alnum_props b : is_alnum_us b = true ->
+  ascii_vis b = true /\ is_byte b 35 = false /\ is_byte b 61 = false /\ is_byte b 91 = false /\
+  is_byte b 93 = false.
+Proof. intros H. destruct b; try (vm_compute in H; discriminate H); repeat split; reflexivity. Qed.
+
+Lemma alpha_alnum b : is_alpha b = true -> is_alnum_us b = true.
+Proof. intros H. destruct b; try (vm_compute in H; discriminate H); reflexivity. Qed.
+
+Lemma digit_props b : is_digit b = true ->
+  ascii_vis b = true /\ is_byte b 35 = false /\ is_byte b 61 = false /\ is_byte b 91 = false /\
+  is_byte b 93 = false.
+Proof. intros H. destruct b; try (vm_compute in H; discriminate H); repeat split; reflexivity. Qed.
+
+Lemma ty_byte_props b : ty_byte b = true ->
+  ascii_vis b = true /\ is_byte b 35 = false /\ is_byte b 61 = false /\ is_byte b 91 = false /\
+  is_byte b 93 = false.
+Proof.
+  unfold ty_byte. rewrite !andb_true_iff, !negb_true_iff. tauto.
+Qed.
+
+Lemma forallb_contains (p : byte -> bool) c s :
+  (forall b, p b = true -> is_byte b c = false) -> forallb p s = true -> contains_byte c s = false.
+Proof.
+  intros Hp. induction s as [|b s IH]; simpl; auto.
+  rewrite andb_true_iff. intros [H1 H2]. rewrite (Hp _ H1), IH; auto.
+Qed.
+
+Lemma forallb_imp {A} (p q : A -> bool) s :
+  (forall b, p b = true -> q b = true) -> forallb p s = true -> forallb q s = true.
+Proof.
+  intros Hp. induction s as [|b s IH]; simpl; auto.
+  rewrite !andb_true_iff. intros [H1 H2]. auto.
+Qed.
+
+Lemma contains_byte_app c a b : contains_byte c (a ++ b) = contains_byte c a || contains_byte c b.
+Proof. induction a as [|x a IH]; simpl; auto. rewrite IH, orb_assoc. reflexivity. Qed.
+
+(* ------------------------------------------------------------------------------------------ *)
+(* strings.Split / Index on one byte                                                           *)
+
+Lemma split_aux_nosep c a : forall cur, contains_byte c a = false -> split_byte_aux c a cur = [rev cur ++ a].
+Proof.
+  induction a as [|x a IH]; intros cur; simpl; [rewrite app_nil_r; auto|].
+  rewrite orb_false_iff. intros [H1 H2]. rewrite H1, IH; auto. simpl. rewrite <- app_assoc. reflexivity.
+Qed.
+
+Lemma split_aux_sep c a b r : forall cur, contains_byte c a = false -> is_byte b c = true ->
+  split_byte_aux c (a ++ b :: r) cur = (rev cur ++ a) :: split_byte_aux c r [].
+Proof.
+  induction a as [|x a IH]; intros cur; simpl.
+  - intros _ H. rewrite H, app_nil_r. reflexivity.
+  - rewrite orb_false_iff. intros [H1 H2] H. rewrite H1, IH; auto. simpl. rewrite <- app_assoc. reflexivity.
+Qed.
+
+Lemma split_nosep c a : contains_byte c a = false -> split_byte c a = [a].
+Proof. intros H. unfold split_byte. rewrite split_aux_nosep; auto. Qed.
+
+Lemma split_sep c a b r : contains_byte c a = false -> is_byte b c = true ->
+  split_byte c (a ++ b :: r) = a :: split_byte c r.
+Proof. intros H1 H2. unfold split_byte. rewrite split_aux_sep; auto. Qed.
+
+Definition unlines (ls : list bytes) : bytes := concat (map (fun l => l ++ [x0a]) ls).
+
+Lemma split_unlines ls : Forall (fun l => contains_byte 10 l = false) ls ->
+  split_byte 10 (unlines ls) = ls ++ [[]].
+Proof.
+  induction 1 as [|l ls Hl _ IH]; [reflexivity|].
+  unfold unlines. simpl. rewrite <- app_assoc. simpl. rewrite split_sep; auto. f_equal. exact IH.
+Qed.
+
+Lemma split_join_nl ls : ls <> [] -> Forall (fun l => contains_byte 10 l = false) ls ->
+  split_byte 10 (join_nl ls) = ls.
+Proof.
+  intros Hne H. induction H as [|l ls Hl Hls IH]; [congruence|].
+  destruct ls as [|l2 ls]; [simpl; apply split_nosep; auto|].
+  change (join_nl (l :: l2 :: ls)) with (l ++ x0a :: join_nl (l2 :: ls)).
+  rewrite split_sep; auto. f_equal. apply IH. discriminate.
+Qed.
+
+Lemma join_nl_cons l ls : ls <> [] -> join_nl (l :: ls) = l ++ x0a :: join_nl ls.
+Proof. destruct ls; [congruence|reflexivity]. Qed.
+
+Lemma join_nl_unlines ls : join_nl (ls ++ [[]]) = unlines ls.
+Proof.
+  induction ls as [|l ls IH]; [reflexivity|].
+  change ((l :: ls) ++ [[]]) with (l :: (ls ++ [[]])).
+  rewrite join_nl_cons by (destruct ls; discriminate).
+  rewrite IH. unfold unlines. simpl. rewrite <- app_assoc. reflexivity.
+Qed.
+
+Lemma index_aux_none c s : forall i, contains_byte c s = false -> index_byte_aux c s i = None.
+Proof.
+  induction s as [|b s IH]; intros i; simpl; auto.
+  rewrite orb_false_iff. intros [H1 H2]. rewrite H1. auto.
+Qed.
+
+Lemma index_aux_some c a b r : forall i, contains_byte c a = false -> is_byte b c = true ->
+  index_byte_aux c (a ++ b :: r) i = Some (i + length a).
+Proof.
+  induction a as [|x a IH]; intros i; simpl.
+  - intros _ H. rewrite H. f_equal. lia.
+  - rewrite orb_false_iff. intros [H1 H2] H. rewrite H1, IH; auto. f_equal. lia.
+Qed.
+
+(* ------------------------------------------------------------------------------------------ *)
+(* one canonical field line                                                                    *)
+
+(* bytes of the first token of a field line: visible ASCII except '#' and '=' *)
+Definition tok_byte (b : byte) : bool := ascii_vis b && negb (is_byte b 35) && negb (is_byte b 61).
+
+Lemma tok_byte_props b : tok_byte b = true ->
+  ascii_vis b = true /\ is_byte b 35 = false /\ is_byte b 61 = false.
+Proof. unfold tok_byte. rewrite !andb_true_iff, !negb_true_iff. tauto. Qed.
+
+Lemma ident_alnum name : ident_ok name = true -> forallb is_alnum_us name = true.
+Proof.
+  destruct name as [|c r]; simpl; [discriminate|]. rewrite !andb_true_iff. intros [H1 H2].
+  split; auto. apply alpha_alnum. exact H1.
+Qed.
+
+Lemma forallb_In {A} (p : A -> bool) l x : forallb p l = true -> In x l -> p x = true.
+Proof. rewrite forallb_forall. auto. Qed.
+
+Lemma field_match_canon f T name :
+  T <> [] -> forallb tok_byte T = true -> ident_ok name = true ->
+  field_match (S f) (T ++ x20 :: name) = Some (T, name).
+Proof.
+  intros Hne HT Hn. pose proof (ident_alnum _ Hn) as Han.
+  destruct name as [|c nr]; [discriminate|]. simpl in Hn. apply andb_true_iff in Hn. destruct Hn as [Hc Hnr].
+  destruct T as [|t0 T']; [congruence|].
+  assert (Ht0 : is_sp_tab t0 = false).
+  { simpl in HT. apply andb_true_iff in HT. destruct HT as [H _]. apply tok_byte_props in H.
+    apply vis_props. tauto. }
+  assert (Hc' : is_sp_tab c = false).
+  { apply vis_props. apply alnum_props. apply alpha_alnum. exact Hc. }
+  rewrite field_match_S.
+  assert (E1 : span is_sp_tab ((t0 :: T') ++ x20 :: c :: nr) = ([], (t0 :: T') ++ x20 :: c :: nr))
+    by (simpl; rewrite Ht0; reflexivity).
+  rewrite E1. cbn [snd]. cbn [app]. cbv zeta.
+  change (t0 :: T' ++ x20 :: c :: nr) with ((t0 :: T') ++ x20 :: c :: nr).
+  rewrite (span_app (fun b => negb (is_sp_tab b)) (t0 :: T') (x20 :: c :: nr)).
+  - cbn [fst snd]. pose proof (span_app is_sp_tab [x20] (c :: nr) eq_refl Hc') as E3.
+    cbn [app] in E3. rewrite E3. cbn [fst snd].
+    rewrite Hc. cbn [existsb]. 
+    replace (is_byte x20 32) with true by reflexivity. cbn [orb andb].
+    rewrite <- (app_nil_r (c :: nr)) at 1. rewrite (span_app is_alnum_us (c :: nr) [] Han I). reflexivity.
+  - eapply forallb_imp; [|exact HT]. intros b Hb. apply tok_byte_props in Hb.
+    destruct (vis_props b) as (-> & _); tauto.
+  - reflexivity.
+Qed.
+
+Lemma classify_canon T name :
+  T <> [] -> forallb tok_byte T = true -> ident_ok name = true ->
+  classify_line (T ++ x20 :: name) = LField T name.
+Proof.
+  intros Hne HT Hn. pose proof (ident_alnum _ Hn) as Han.
+  assert (Htrim : trim_space (T ++ x20 :: name) = T ++ x20 :: name).
+  { apply trim_space_id.
+    - destruct T as [|t0 T']; [congruence|]. simpl. apply vis_lead.
+      simpl in HT. apply andb_true_iff in HT. destruct HT as [H _]. apply tok_byte_props in H. tauto.
+    - assert (Hnn : name <> []) by (destruct name; [discriminate|congruence]).
+      destruct (exists_last Hnn) as (m & z & ->).
+      replace (T ++ x20 :: m ++ [z]) with ((T ++ x20 :: m) ++ [z]) by (rewrite <- app_assoc; reflexivity).
+      rewrite rev_app_distr. simpl. apply vis_trail. apply alnum_props.
+      apply (forallb_In _ _ _ Han). apply in_or_app. right. left. reflexivity. }
+  unfold classify_line. rewrite Htrim.
+  assert (H35 : contains_byte 35 (T ++ x20 :: name) = false).
+  { rewrite contains_byte_app. simpl.
+    rewrite (forallb_contains tok_byte 35 T), (forallb_contains is_alnum_us 35 name); auto.
+    - intros b Hb. apply alnum_props in Hb. tauto.
+    - intros b Hb. apply tok_byte_props in Hb. tauto. }
+  assert (H61 : contains_byte 61 (T ++ x20 :: name) = false).
+  { rewrite contains_byte_app. simpl.
+    rewrite (forallb_contains tok_byte 61 T), (forallb_contains is_alnum_us 61 name); auto.
+    - intros b Hb. apply alnum_props in Hb. tauto.
+    - intros b Hb. apply tok_byte_props in Hb. tauto. }
+  rewrite (split_nosep _ _ H35). cbn [hd]. rewrite H61.
+  rewrite field_match_canon; auto.
+  destruct T as [|t0 T']; [congruence|]. cbn [app].
+  simpl in HT. apply andb_true_iff in HT. destruct HT as [H _]. apply tok_byte_props in H.
+  destruct H as (_ & -> & _). reflexivity.
+Qed.
+
+(* parseArrayType *)
+Lemma pat_scalar t : contains_byte 91 t = false -> parse_array_type t = (false, [], 0%Z).
+Proof. intros H. unfold parse_array_type, index_byte. rewrite (index_aux_none _ _ _ H). reflexivity. Qed.
+
+Lemma pat_array t ds :
+  contains_byte 91 t = false -> contains_byte 93 t = false -> contains_byte 93 ds = false ->
+  parse_array_type (t ++ x5b :: ds ++ [x5d]) =
+  match ds with
+  | [] => (true, t, 0%Z)
+  | _ => match atoi ds with Some n => (true, t, n) | None => (false, [], 0%Z) end
+  end.
+Proof.
+  intros H1 H2 H3. unfold parse_array_type, index_byte.
+  rewrite (index_aux_some 91 t x5b (ds ++ [x5d]) 0 H1 eq_refl).
+  replace (t ++ x5b :: ds ++ [x5d]) with ((t ++ x5b :: ds) ++ x5d :: []) at 1
+    by (rewrite <- app_assoc; reflexivity).
+  rewrite (index_aux_some 93 (t ++ x5b :: ds) x5d [] 0).
+  2:{ rewrite contains_byte_app. simpl. rewrite H2, H3. reflexivity. }
+  2:{ reflexivity. }
+  rewrite app_length. simpl.
+  replace (length t + S (length ds) <? length t) with false by (symmetry; apply Nat.ltb_ge; lia).
+  rewrite firstn_app_exact.
+  replace (t ++ x5b :: ds ++ [x5d]) with ((t ++ [x5b]) ++ ds ++ [x5d]) by (rewrite <- app_assoc; reflexivity).
+  rewrite (skipn_app_exact' (length t + 1)) by (rewrite app_length; reflexivity).
+  replace (length t + S (length ds) - (length t + 1)) with (length ds) by lia.
+  rewrite firstn_app_exact. reflexivity.
+Qed.
+
+(* ------------------------------------------------------------------------------------------ *)
+(* rendered lines                                                                              *)
+
+Definition line_tok (f : afield) : bytes := type_text (af_ty f) ++ arr_suffix (af_arr f).
+
+Lemma render_line_eq f : render_line f = line_tok f ++ x20 :: af_name f.
+Proof. unfold render_line, line_tok. rewrite <- app_assoc. reflexivity. Qed.
+
+Lemma static_parts f : field_static_ok f = true ->
+  ident_ok (af_name f) = true /\ arr_ok (af_arr f) = true /\
+  type_text (af_ty f) <> [] /\ forallb ty_byte (type_text (af_ty f)) = true.
+Proof.
+  unfold field_static_ok, type_text_ok. rewrite !andb_true_iff. intros [[H1 H2] [H3 H4]].
+  repeat split; auto. destruct (type_text (af_ty f)); [discriminate|congruence].
+Qed.
+
+Lemma digits_parts ds : digits_ok ds = true ->
+  ds <> [] /\ forallb is_digit ds = true /\ exists n, atoi ds = Some n.
+Proof.
+  unfold digits_ok. rewrite !andb_true_iff. intros [[H1 H2] H3]. repeat split; auto.
+  - destruct ds; [discriminate|congruence].
+  - destruct (atoi ds); [eauto|discriminate].
+Qed.
+
+Lemma line_tok_ok f : field_static_ok f = true -> line_tok f <> [] /\ forallb tok_byte (line_tok f) = true.
+Proof.
+  intros H. destruct (static_parts _ H) as (_ & Ha & Hne & Ht). unfold line_tok. split.
+  - destruct (type_text (af_ty f)); [congruence|discriminate].
+  - rewrite forallb_app. apply andb_true_iff. split.
+    + eapply forallb_imp; [|exact Ht]. intros b Hb. apply ty_byte_props in Hb. unfold tok_byte.
+      destruct Hb as (-> & -> & -> & _). reflexivity.
+    + destruct (af_arr f) as [[ds|]|]; try reflexivity. simpl in Ha.
+      apply digits_parts in Ha. destruct Ha as (_ & Hd & _). simpl.
+      rewrite forallb_app. simpl. rewrite andb_true_r.
+      eapply forallb_imp; [|exact Hd]. intros b Hb. apply digit_props in Hb. unfold tok_byte.
+      destruct Hb as (-> & -> & -> & _). reflexivity.
+Qed.
+
+Lemma trim_canon T name :
+  T <> [] -> forallb tok_byte T = true -> ident_ok name = true ->
+  trim_space (T ++ x20 :: name) = T ++ x20 :: name.
+Proof.
+  intros Hne HT Hn. pose proof (ident_alnum _ Hn) as Han.
+  apply trim_space_id.
+  - destruct T as [|t0 T']; [congruence|]. simpl. apply vis_lead.
+    simpl in HT. apply andb_true_iff in HT. destruct HT as [H _]. apply tok_byte_props in H. tauto.
+  - assert (Hnn : name <> []) by (destruct name; [discriminate|congruence]).
+    destruct (exists_last Hnn) as (m & z & ->).
+    replace (T ++ x20 :: m ++ [z]) with ((T ++ x20 :: m) ++ [z]) by (rewrite <- app_assoc; reflexivity).
+    rewrite rev_app_distr. simpl. apply vis_trail. apply alnum_props.
+    apply (forallb_In _ _ _ Han). apply in_or_app. right. left. reflexivity.
+Qed.
+
+Lemma not61_eqb b : is_byte b 61 = false -> Byte.eqb x3d b = false.
+Proof. intros H. destruct b; try reflexivity. vm_compute in H. discriminate H. Qed.
+
+Definition nonsep (l : bytes) : Prop := starts_with [x3d] (trim_space l) = false.
+Definition no_nl (l : bytes) : Prop := contains_byte 10 l = false.
+
+Lemma render_line_nonsep f : field_static_ok f = true -> nonsep (render_line f).
+Proof.
+  intros H. destruct (line_tok_ok _ H) as (Hne & Ht). destruct (static_parts _ H) as (Hn & _).
+  unfold nonsep. rewrite render_line_eq, trim_canon; auto.
+  destruct (line_tok f) as [|t0 T']; [congruence|]. simpl.
+  simpl in Ht. apply andb_true_iff in Ht. destruct Ht as [Ht _]. apply tok_byte_props in Ht.
+  rewrite not61_eqb; tauto.
+Qed.
+
+Lemma render_line_no_nl f : field_static_ok f = true -> no_nl (render_line f).
+Proof.
+  intros H. destruct (line_tok_ok _ H) as (Hne & Ht). destruct (static_parts _ H) as (Hn & _).
+  unfold no_nl. rewrite render_line_eq, contains_byte_app. simpl.
+  rewrite (forallb_contains tok_byte 10 (line_tok f)); auto.
+  - rewrite (forallb_contains is_alnum_us 10 (af_name f)); auto.
+    + intros b Hb. apply alnum_props in Hb. apply vis_props. tauto.
+    + apply ident_alnum. exact Hn.
+  - intros b Hb. apply tok_byte_props in Hb. apply vis_props. tauto.
+Qed.
+
+Definition hdr_line (n : bytes) : bytes := s_msg_prefix ++ n.
+
+Lemma hdr_trim n : sec_name_ok n = true -> trim_space (hdr_line n) = hdr_line n.
+Proof.
+  unfold sec_name_ok. rewrite andb_true_iff. intros [Hne Hv].
+  assert (Hnn : n <> []) by (destruct n; [discriminate|congruence]).
+  apply trim_space_id; [reflexivity|].
+  destruct (exists_last Hnn) as (m & z & ->). unfold hdr_line. rewrite app_assoc, rev_app_distr. simpl.
+  apply vis_trail. apply (forallb_In _ _ _ Hv). apply in_or_app. right. left. reflexivity.
+Qed.
+
+Lemma hdr_nonsep n : sec_name_ok n = true -> nonsep (hdr_line n).
+Proof. intros H. unfold nonsep. rewrite hdr_trim; auto. Qed.
+
+Lemma hdr_no_nl n : sec_name_ok n = true -> no_nl (hdr_line n).
+Proof.
+  unfold sec_name_ok. rewrite andb_true_iff. intros [_ Hv]. unfold no_nl, hdr_line.
+  rewrite contains_byte_app. replace (contains_byte 10 s_msg_prefix) with false by reflexivity.
+  apply (forallb_contains ascii_vis); auto. intros b Hb. apply vis_props in Hb. tauto.
+Qed.
+
+Lemma hdr_key n : sec_name_ok n = true -> strip_prefix s_msg_prefix (trim_space (hdr_line n)) = n.
+Proof.
+  intros H. rewrite hdr_trim by exact H. reflexivity.
+Qed.
+
+Lemma sep80_sep : starts_with [x3d] (trim_space sep80) = true.
+Proof. reflexivity. Qed.
+
+Lemma sep80_no_nl : no_nl sep80.
+Proof. reflexivity. Qed.
+
+(* ------------------------------------------------------------------------------------------ *)
+(* splitLines                                                                                  *)
+
+Lemma split_sections_nonsep ls : forall rest cur acc, Forall nonsep ls ->
+  split_sections (ls ++ rest) cur acc = split_sections rest (cur ++ unlines ls) acc.
+Proof.
+  induction ls as [|l ls IH]; intros rest cur acc H.
+  - unfold unlines. simpl. rewrite app_nil_r. reflexivity.
+  - inversion H as [|? ? Hl Hls]; subst. simpl. unfold nonsep in Hl. simpl in Hl. rewrite Hl.
+    rewrite IH; auto. f_equal. unfold unlines. simpl. rewrite <- !app_assoc. reflexivity.
+Qed.
+
+Definition sec_text (s : bytes * list afield) : bytes :=
+  unlines (hdr_line (fst s) :: map render_line (snd s)).
+
+Definition sec_static_ok (s : bytes * list afield) : bool :=
+  sec_name_ok (fst s) && forallb field_static_ok (snd s).
+
+Lemma Forall_render (P : bytes -> Prop) fs :
+  (forall f, field_static_ok f = true -> P (render_line f)) ->
+  forallb field_static_ok fs = true -> Forall P (map render_line fs).
+Proof.
+  intros HP H. apply Forall_forall. intros l Hl. apply in_map_iff in Hl. destruct Hl as (f & <- & Hf).
+  apply HP. eapply forallb_In; eauto.
+Qed.
+
+Lemma split_sections_secs secs : forall cur acc,
+  forallb sec_static_ok secs = true ->
+  split_sections (concat (map sec_lines secs)) cur acc =
+  match secs with
+  | [] => match cur with [] => acc | _ => acc ++ [cur] end
+  | _ => acc ++ cur :: map sec_text secs
+  end.
+Proof.
+  induction secs as [|s secs IH]; intros cur acc H; [reflexivity|].
+  simpl in H. apply andb_true_iff in H. destruct H as [Hs Hr].
+  unfold sec_static_ok in Hs. apply andb_true_iff in Hs. destruct Hs as [Hn Hf].
+  cbn [map concat]. unfold sec_lines at 1. cbn [app].
+  change (split_sections (sep80 :: ?x) cur acc) with
+    (if starts_with [x3d] (trim_space sep80) then split_sections x [] (acc ++ [cur])
+     else split_sections x (cur ++ sep80 ++ [x0a]) acc).
+  rewrite sep80_sep.
+  match goal with |- split_sections ?l _ _ = _ =>
+    change l with ((hdr_line (fst s) :: map render_line (snd s)) ++ concat (map sec_lines secs)) end.
+  rewrite split_sections_nonsep.
+  2:{ constructor; [apply hdr_nonsep; auto|]. apply Forall_render; auto. apply render_line_nonsep. }
+  rewrite IH; auto. cbn [app]. fold (sec_text s).
+  destruct secs as [|s2 secs].
+  - assert (Hne : sec_text s <> []) by (unfold sec_text, unlines, hdr_line; simpl; discriminate).
+    destruct (sec_text s); [congruence|]. rewrite <- app_assoc. reflexivity.
+  - rewrite <- app_assoc. reflexivity.
+Qed.
+
+(* ------------------------------------------------------------------------------------------ *)
+(* the dependency table of a rendered graph                                                    *)
+
+Definition sec_def (fs : list afield) : bytes := unlines (map render_line fs).
+Definition graph_deps (secs : list (bytes * list afield)) : list (bytes * bytes) :=
+  map (fun s => (fst s, sec_def (snd s))) secs.
+
+Lemma dep_get_none k deps : ~ In k (map fst deps) -> dep_get k deps = None.
+Proof. intros H. destruct (dep_get k deps) eqn:E; auto. exfalso. apply H. eapply dep_get_In; eauto. Qed.
+
+Lemma sec_get_none k secs : ~ In k (map fst secs) -> sec_get k secs = None.
+Proof.
+  induction secs as [|[n fs] r IH]; simpl; auto. intros H.
+  destruct (bytes_eqb k n) eqn:E; [apply bytes_eqb_eq in E; subst; tauto|]. apply IH. tauto.
+Qed.
+
+Lemma sec_get_In k secs fs : sec_get k secs = Some fs -> In (k, fs) secs.
+Proof.
+  induction secs as [|[n fs'] r IH]; simpl; [discriminate|].
+  destruct (bytes_eqb k n) eqn:E; [|auto].
+  apply bytes_eqb_eq in E. subst. intros H. injection H as <-. auto.
+Qed.
+
+Lemma dep_get_secs k secs : nodup_b (map fst secs) = true ->
+  dep_get k (graph_deps secs) = option_map sec_def (sec_get k secs).
+Proof.
+  induction secs as [|[n fs] r IH]; simpl; auto.
+  rewrite andb_true_iff, negb_true_iff. intros [Hn Hr]. fold (graph_deps r). rewrite IH; auto.
+  destruct (bytes_eqb k n) eqn:E.
+  - apply bytes_eqb_eq in E. subst. apply mem_b_false in Hn. rewrite sec_get_none; auto.
+  - destruct (sec_get k r); reflexivity.
+Qed.
+
+Lemma graph_deps_keys secs : map fst (graph_deps secs) = map fst secs.
+Proof. unfold graph_deps. rewrite map_map. reflexivity. Qed.
+
+Lemma lookup_dep_wf pkg secs w t sfs :
+  nodup_b (map fst secs) = true ->
+  opt_bytes_eqb (ref_target pkg (map fst secs) w) t = true -> sec_get t secs = Some sfs ->
+  lookup_dep pkg (graph_deps secs) w = Ok (ctx_pkg pkg w, t, sec_def sfs).
+Proof.
+  intros Hnd Ht Hs. unfold ref_target in Ht. unfold lookup_dep.
+  destruct (mem_b w (map fst secs)) eqn:Em.
+  - cbn [opt_bytes_eqb] in Ht. apply bytes_eqb_eq in Ht. subst t. rewrite dep_get_secs, Hs; auto.
+  - rewrite (dep_get_none w).
+    2:{ rewrite graph_deps_keys. apply mem_b_false. exact Em. }
+    destruct (bytes_eqb w s_header).
+    + destruct (mem_b s_std_header (map fst secs)); [|discriminate]. cbn [opt_bytes_eqb] in Ht.
+      apply bytes_eqb_eq in Ht. subst t. rewrite dep_get_secs, Hs; auto.
+    + destruct (negb (contains_byte 47 w)) eqn:Eq; [|discriminate].
+      destruct (mem_b (pkg ++ x2f :: w) (map fst secs)); [|discriminate]. cbn [opt_bytes_eqb] in Ht.
+      apply bytes_eqb_eq in Ht. subst t. rewrite dep_get_secs, Hs; auto. cbn [option_map].
+      unfold ctx_pkg. apply negb_true_iff in Eq. rewrite Eq. reflexivity.
+Qed.
+
+(* ------------------------------------------------------------------------------------------ *)
+(* one field                                                                                   *)
+
+Lemma field_step fld : field_static_ok fld = true ->
+  classify_line (render_line fld) = LField (line_tok fld) (af_name fld) /\
+  parse_array_type (line_tok fld) =
+  match af_arr fld with
+  | None => (false, [], 0%Z)
+  | Some a => (true, type_text (af_ty fld), arr_value a)
+  end.
+Proof.
+  intros H. destruct (line_tok_ok _ H) as (Hne & Ht). destruct (static_parts _ H) as (Hn & Ha & Hne' & Hty).
+  split; [rewrite render_line_eq; apply classify_canon; auto|].
+  assert (H91 : contains_byte 91 (type_text (af_ty fld)) = false).
+  { apply (forallb_contains ty_byte); auto. intros b Hb. apply ty_byte_props in Hb. tauto. }
+  assert (H93 : contains_byte 93 (type_text (af_ty fld)) = false).
+  { apply (forallb_contains ty_byte); auto. intros b Hb. apply ty_byte_props in Hb. tauto. }
+  unfold line_tok. destruct (af_arr fld) as [[ds|]|]; simpl arr_suffix.
+  - simpl in Ha. apply digits_parts in Ha. destruct Ha as (Hdne & Hd & n & Hat).
+    rewrite pat_array; auto.
+    + simpl. rewrite Hat. destruct ds; [congruence|reflexivity].
+    + apply (forallb_contains is_digit); auto. intros b Hb. apply digit_props in Hb. tauto.
+  - apply (pat_array _ [] H91 H93 eq_refl).
+  - rewrite app_nil_r. apply pat_scalar. exact H91.
+Qed.
+
+Lemma go_fields rec pkg deps vis (sub_of : afield -> bool * list field) fs :
+  (forall fld, In fld fs -> field_static_ok fld = true /\
+                            resolve_type rec pkg deps vis (type_text (af_ty fld)) = Ok (sub_of fld)) ->
+  forall acc, go_spec rec pkg deps vis (map render_line fs ++ [[]]) acc
+              = Ok (acc ++ map (fun fld => tree_field fld (fst (sub_of fld)) (snd (sub_of fld))) fs).
+Proof.
+  induction fs as [|fld fs IH]; intros H acc.
+  - simpl. rewrite app_nil_r. reflexivity.
+  - destruct (H fld (or_introl eq_refl)) as (Hs & Hr). destruct (field_step _ Hs) as (Hc & Hp).
+    cbn [map app go_spec]. rewrite Hc, Hp.
+    assert (He : elem_type (line_tok fld)
+                   match af_arr fld with
+                   | None => (false, [], 0%Z)
+                   | Some a => (true, type_text (af_ty fld), arr_value a)
+                   end = type_text (af_ty fld)).
+    { unfold elem_type, line_tok. destruct (af_arr fld); simpl; auto. apply app_nil_r. }
+    cbv zeta. rewrite He, Hr. cbn [bind].
+    rewrite IH by (intros; apply H; right; auto).
+    rewrite <- app_assoc. do 3 f_equal.
+    unfold mk_field, tree_field, line_tok. destruct (af_arr fld); simpl; auto.
+    rewrite app_nil_r. reflexivity.
+Qed.
+
+(* ------------------------------------------------------------------------------------------ *)
+(* the main induction                                                                          *)
+
+Lemma resolve_wf secs : nodup_b (map fst secs) = true ->
+  forall af rf pkg vis fs, af <= rf -> wf_fields secs af pkg vis fs = true ->
+  resolve rf pkg (graph_deps secs) vis (sec_def fs) = Ok (tree_fields secs af fs).
+Proof.
+  intros Hnd. induction af as [|f IH]; intros rf pkg vis fs Hle Hwf; [discriminate|].
+  destruct rf as [|rf']; [lia|]. rewrite resolve_S.
+  cbn [wf_fields] in Hwf. rewrite forallb_forall in Hwf.
+  unfold sec_def. rewrite split_unlines.
+  2:{ apply Forall_forall. intros l Hl. apply in_map_iff in Hl. destruct Hl as (fld & <- & Hfld).
+      apply render_line_no_nl. specialize (Hwf _ Hfld). apply andb_true_iff in Hwf. tauto. }
+  rewrite (go_fields _ _ _ _
+             (fun fld => match af_ty fld with
+                         | APrim _ => (false, [])
+                         | ARef _ t => (true, match sec_get t secs with
+                                              | Some sfs => tree_fields secs f sfs | None => [] end)
+                         end)).
+  - cbn [app tree_fields]. f_equal. apply map_ext. intros fld. destruct (af_ty fld); reflexivity.
+  - intros fld Hfld. specialize (Hwf _ Hfld). apply andb_true_iff in Hwf. destruct Hwf as [Hs Hty].
+    split; auto. unfold resolve_type. destruct (af_ty fld) as [n|w t]; cbn [type_text].
+    + rewrite Hty. reflexivity.
+    + rewrite !andb_true_iff, !negb_true_iff in Hty. destruct Hty as [[[Hnp Hrt] Hv] Hsub].
+      rewrite Hnp. destruct (sec_get t secs) as [sfs|] eqn:Esec; [|discriminate].
+      rewrite (lookup_dep_wf _ _ _ _ _ Hnd Hrt Esec). cbn [bind]. rewrite Hv.
+      fold (sec_def sfs). rewrite (IH rf' _ _ _ ltac:(lia) Hsub). reflexivity.
+Qed.
+
+(* ------------------------------------------------------------------------------------------ *)
+(* the whole rendered text                                                                     *)
+
+Lemma wf_graph_parts pkg g : wf_graph pkg g = true ->
+  forallb field_static_ok (top g) = true /\ forallb sec_static_ok (sections g) = true /\
+  nodup_b (map fst (sections g)) = true /\
+  wf_fields (sections g) (S (length (sections g))) pkg [] (top g) = true.
+Proof. unfold wf_graph. rewrite !andb_true_iff. tauto. Qed.
+
+Lemma graph_lines_no_nl g :
+  forallb field_static_ok (top g) = true -> forallb sec_static_ok (sections g) = true ->
+  Forall no_nl (graph_lines g).
+Proof.
+  intros Ht Hs. unfold graph_lines. apply Forall_app. split.
+  - apply Forall_render; auto. apply render_line_no_nl.
+  - apply Forall_concat. apply Forall_forall. intros ls Hls. apply in_map_iff in Hls.
+    destruct Hls as (s & <- & Hin). pose proof (forallb_In _ _ _ Hs Hin) as Hss.
+    unfold sec_static_ok in Hss. apply andb_true_iff in Hss. destruct Hss as [Hn Hf].
+    unfold sec_lines. constructor; [apply sep80_no_nl|]. constructor; [apply hdr_no_nl; auto|].
+    apply Forall_render; auto. apply render_line_no_nl.
+Qed.
+
+Lemma sec_text_dep s : sec_static_ok s = true ->
+  (let ls := split_byte 10 (sec_text s) in
+   (strip_prefix s_msg_prefix (trim_space (hd [] ls)), join_nl (tl ls))) = (fst s, sec_def (snd s)).
+Proof.
+  unfold sec_static_ok. rewrite andb_true_iff. intros [Hn Hf]. cbv zeta. unfold sec_text.
+  rewrite split_unlines.
+  2:{ constructor; [apply hdr_no_nl; auto|]. apply Forall_render; auto. apply render_line_no_nl. }
+  cbn [app hd tl]. rewrite hdr_key by exact Hn. rewrite join_nl_unlines. reflexivity.
+Qed.
+
+Lemma msgdef_render g :
+  forallb field_static_ok (top g) = true -> forallb sec_static_ok (sections g) = true ->
+  graph_lines g <> [] ->
+  msgdef_top (render_graph g) = sec_def (top g) /\
+  msgdef_deps (render_graph g) = graph_deps (sections g).
+Proof.
+  intros Ht Hs Hne. unfold msgdef_top, msgdef_deps, msgdef_secs, render_graph.
+  rewrite split_join_nl; auto; [|apply graph_lines_no_nl; auto].
+  unfold graph_lines. rewrite split_sections_nonsep.
+  2:{ apply Forall_render; auto. apply render_line_nonsep. }
+  rewrite split_sections_secs by exact Hs. cbn [app]. fold (sec_def (top g)).
+  destruct (sections g) as [|s secs] eqn:Es.
+  - assert (Hd : sec_def (top g) <> []).
+    { unfold graph_lines in Hne. rewrite Es in Hne. simpl in Hne. rewrite app_nil_r in Hne.
+      destruct (top g); [simpl in Hne; congruence|]. unfold sec_def, unlines. simpl.
+      destruct (render_line a); discriminate. }
+    destruct (sec_def (top g)); [congruence|]. split; reflexivity.
+  - cbn [hd tl]. split; auto. unfold graph_deps. rewrite map_map. apply map_ext_in.
+    intros a Ha. apply sec_text_dep. eapply forallb_In; eauto.
+Qed.
+
+Theorem parse_rendered pkg g : wf_graph pkg g = true -> parse_msgdef pkg (render_graph g) = Ok (tree_of g).
+Proof.
+  intros H. destruct (wf_graph_parts _ _ H) as (Ht & Hs & Hnd & Hwf).
+  destruct (graph_lines g) as [|l0 ls] eqn:El.
+  - (* the empty graph renders to the empty text *)
+    unfold graph_lines in El. apply app_eq_nil in El. destruct El as [E1 E2].
+    destruct g as [tp secs]. simpl in *. destruct tp; [|discriminate].
+    destruct secs; [|discriminate]. reflexivity.
+  - assert (Hne : graph_lines g <> []) by (rewrite El; discriminate).
+    destruct (msgdef_render g Ht Hs Hne) as (Etop & Edeps).
+    rewrite parse_msgdef_unfold, Etop, Edeps. unfold tree_of.
+    apply resolve_wf; auto. unfold graph_deps. rewrite map_length. lia.
+Qed.
+
+(* ------------------------------------------------------------------------------------------ *)
+(* a concrete self-referential family, for every parent package                                *)
+
+Definition s_foo : bytes := str [70;111;111]%N.              (* Foo *)
+Definition s_foo_x : bytes := str [70;111;111;32;120]%N.     (* Foo x *)
+Definition s_foo_y : bytes := str [70;111;111;32;121]%N.     (* Foo y *)
+Definition s_slash_foo : bytes := str [47;70;111;111]%N.     (* /Foo *)
+(* Foo x \n ===...=== \n MSG: <pkg>/Foo \n Foo y \n *)
+Definition cyc_lines (pkg : bytes) : list bytes :=
+  [s_foo_x; sep80; s_msg_prefix ++ pkg ++ s_slash_foo; s_foo_y; []].
+Definition cyc_data (pkg : bytes) : bytes := join_nl (cyc_lines pkg).
+
+Lemma split_sections_sep l r cur acc : starts_with [x3d] (trim_space l) = true ->
+  split_sections (l :: r) cur acc = split_sections r [] (acc ++ [cur]).
+Proof. intros H. simpl. simpl in H. rewrite H. reflexivity. Qed.
+
+Lemma cyc_hdr_trim pkg :
+  trim_space (s_msg_prefix ++ pkg ++ s_slash_foo) = s_msg_prefix ++ pkg ++ s_slash_foo.
+Proof. apply trim_space_id; [reflexivity|]. rewrite !rev_app_distr. reflexivity. Qed.
+
+Lemma cyc_msgdef pkg : contains_byte 10 pkg = false ->
+  msgdef_top (cyc_data pkg) = unlines [s_foo_x] /\
+  msgdef_deps (cyc_data pkg) = [(pkg ++ s_slash_foo, unlines [s_foo_y; []])].
+Proof.
+  intros Hp. unfold msgdef_top, msgdef_deps, msgdef_secs, cyc_data.
+  rewrite split_join_nl; [|discriminate|].
+  2:{ unfold cyc_lines. repeat constructor. unfold no_nl. rewrite !contains_byte_app, Hp. reflexivity. }
+  unfold cyc_lines.
+  change [s_foo_x; sep80; s_msg_prefix ++ pkg ++ s_slash_foo; s_foo_y; []]
+    with ([s_foo_x] ++ sep80 :: [s_msg_prefix ++ pkg ++ s_slash_foo; s_foo_y; []] ++ []).
+  rewrite (split_sections_nonsep [s_foo_x] _ [] []) by (repeat constructor).
+  rewrite split_sections_sep by reflexivity.
+  rewrite (split_sections_nonsep [s_msg_prefix ++ pkg ++ s_slash_foo; s_foo_y; []] [] [] _).
+  2:{ repeat constructor. unfold nonsep. rewrite cyc_hdr_trim. reflexivity. }
+  cbn [split_sections app].
+  set (sec := unlines [s_msg_prefix ++ pkg ++ s_slash_foo; s_foo_y; []]).
+  assert (Hne : sec <> []) by (unfold sec, unlines; simpl; discriminate).
+  destruct sec eqn:Es; [congruence|]. rewrite <- Es. clear Es Hne. cbn [hd tl map]. split; [reflexivity|].
+  unfold sec. rewrite split_unlines.
+  2:{ repeat constructor. unfold no_nl. rewrite !contains_byte_app, Hp. reflexivity. }
+  cbn [app hd tl]. rewrite cyc_hdr_trim.
+  change (join_nl [s_foo_y; []; []]) with (join_nl ([s_foo_y; []] ++ [[]])). rewrite join_nl_unlines.
+  reflexivity.
+Qed.
+
+Lemma cyc_lookup pkg d :
+  lookup_dep pkg [(pkg ++ s_slash_foo, d)] s_foo = Ok (pkg, pkg ++ s_slash_foo, d).
+Proof.
+  unfold lookup_dep. cbn [dep_get].
+  assert (E : bytes_eqb s_foo (pkg ++ s_slash_foo) = false).
+  { apply bytes_eqb_false. intros H. apply (f_equal (contains_byte 47)) in H.
+    rewrite contains_byte_app in H. replace (contains_byte 47 s_slash_foo) with true in H by reflexivity.
+    rewrite orb_true_r in H. discriminate H. }
+  rewrite E. replace (bytes_eqb s_foo s_header) with false by reflexivity.
+  replace (contains_byte 47 s_foo) with false by reflexivity. cbn [negb].
+  change (pkg ++ x2f :: s_foo) with (pkg ++ s_slash_foo). rewrite bytes_eqb_refl. reflexivity.
+Qed.
+
+Theorem cycle_self_is_error pkg : contains_byte 10 pkg = false ->
+  exists e, parse_msgdef pkg (cyc_data pkg) = Err e.
+Proof.
+  intros Hp. destruct (cyc_msgdef pkg Hp) as (Etop & Edeps).
+  set (k := pkg ++ s_slash_foo). set (d := unlines [s_foo_y; []]).
+  apply (parse_msgdef_cycle_err pkg (cyc_data pkg) [k; k] pkg d).
+  - rewrite Etop, Edeps. fold k d.
+    apply (rp_cons _ _ _ [k] pkg d pkg k d).
+    + apply (rp_cons _ _ _ [] pkg (unlines [s_foo_x]) pkg k d); [constructor|].
+      exists s_foo_x, s_foo, (str [120]%N). split; [left; reflexivity|]. split; [reflexivity|].
+      split; [reflexivity|]. apply cyc_lookup.
+    + exists s_foo_y, s_foo, (str [121]%N). split; [left; reflexivity|]. split; [reflexivity|].
+      split; [reflexivity|]. apply cyc_lookup.
+  - intros H. inversion H as [|? ? Hn _]. apply Hn. left. reflexivity.
+Qed.
+
+(* qualified self reference: any parent package at all *)
+Definition cyc_q_data : bytes :=
+  join_nl [str [97;47;70;111;111;32;120]%N; sep80; s_msg_prefix ++ str [97;47;70;111;111]%N;
+           str [97;47;70;111;111;32;121]%N; []].
+
+Theorem cycle_qualified_is_error pkg : parse_msgdef pkg cyc_q_data = Err EOther.
+Proof. vm_compute. reflexivity. Qed.
